@@ -64,6 +64,11 @@ type Ctl struct {
 	strategy string
 	replay   []string
 	spinCnt  map[string]int
+	held     map[*Arrival]bool // strategy "hold": arrivals at cond-wait gates that are being held back
+	decided  map[*Arrival]bool
+	dfs      *DFS
+	dfsPre   int    // preemptions so far in this execution
+	lastRole string // role released last
 
 	freeYield atomic.Int32 // in free mode: 1-in-N chance to yield at a hook
 	freeSeed  atomic.Int64
@@ -310,6 +315,46 @@ type Options struct {
 	// When only goroutines inside such loops have moved for several complete rounds, the configuration cannot
 	// change any more (every poller re-evaluated the unchanged state) and the execution is terminal.
 	PollPrefixes []string
+	DFS          *DFS // strategy "dfs"
+}
+
+// DFS is the state of a preemption-bounded depth-first enumeration of gate schedules, kept across the executions of
+// one scenario. A preemption is a switch away from a goroutine that could have continued.
+type DFS struct {
+	Bound     int
+	Frozen    bool // stop branching (used after the main phase of an execution: the epilogue is not enumerated)
+	stack     []dfsFrame
+	Done      bool // the whole bounded tree has been enumerated
+	Diverged  int  // executions in which the recorded prefix could not be followed exactly
+	Schedules int
+}
+
+type dfsFrame struct {
+	opts []string
+	idx  int
+}
+
+// Next prepares the next execution; it returns false when the tree is exhausted.
+func (d *DFS) Next() bool {
+	if d.Done {
+		return false
+	}
+	d.Frozen = false
+	if d.Schedules == 0 {
+		d.Schedules++
+		return true
+	}
+	for len(d.stack) > 0 {
+		top := &d.stack[len(d.stack)-1]
+		if top.idx+1 < len(top.opts) {
+			top.idx++
+			d.Schedules++
+			return true
+		}
+		d.stack = d.stack[:len(d.stack)-1]
+	}
+	d.Done = true
+	return false
 }
 
 // Result of one controlled execution.
@@ -342,6 +387,11 @@ func (c *Ctl) Begin(o Options) {
 	c.spinCnt = map[string]int{}
 	c.strategy = o.Strategy
 	c.replay = o.Replay
+	c.held = map[*Arrival]bool{}
+	c.decided = map[*Arrival]bool{}
+	c.dfs = o.DFS
+	c.dfsPre = 0
+	c.lastRole = ""
 	if o.Strategy == "pct" {
 		ms := o.MaxSteps
 		if ms <= 0 || ms > 200 {
@@ -470,6 +520,7 @@ func (c *Ctl) Run(o Options, driversDone func() bool) Result {
 		} else {
 			clear(pollCnt)
 		}
+		c.lastRole = a.Role
 		st := Step{Role: a.Role, Pt: a.Pt, Obj: a.Obj, N: a.N}
 		c.Steps = append(c.Steps, st)
 		c.Choices = append(c.Choices, a.Role)
@@ -504,6 +555,67 @@ func (c *Ctl) choose(o Options) (a *Arrival, idle bool, diverged bool) {
 	sort.Slice(list, func(i, j int) bool { return list[i].Role < list[j].Role })
 	stepNo := len(c.Choices)
 	switch c.strategy {
+	case "dfs":
+		// options: the goroutine released last (if it can continue) first, then the others, then "let time pass"
+		var opts []string
+		cur := ""
+		for _, g := range list {
+			if g.Role == c.lastRole {
+				cur = g.Role
+			}
+		}
+		if cur != "" {
+			opts = append(opts, cur)
+		}
+		if cur == "" || c.dfsPre < c.dfs.Bound {
+			for _, g := range list {
+				if g.Role != cur {
+					opts = append(opts, g.Role)
+				}
+			}
+			if len(c.timed) > 0 {
+				opts = append(opts, "~idle")
+			}
+		}
+		var pick string
+		if c.dfs.Frozen {
+			pick = opts[0]
+		} else if stepNo < len(c.dfs.stack) {
+			f := c.dfs.stack[stepNo]
+			want := f.opts[f.idx]
+			ok := false
+			for _, o := range opts {
+				if o == want {
+					ok = true
+				}
+			}
+			if ok {
+				pick = want
+			} else {
+				// the program did not behave as in the previous execution (timers): continue from here afresh
+				c.dfs.Diverged++
+				c.dfs.stack = c.dfs.stack[:stepNo]
+			}
+		}
+		if pick == "" {
+			c.dfs.stack = append(c.dfs.stack[:stepNo], dfsFrame{opts: opts, idx: 0})
+			pick = opts[0]
+		}
+		if c.dfs.Frozen {
+			c.dfsPre = c.dfs.Bound // no further preemptions
+		}
+		if cur != "" && pick != cur {
+			c.dfsPre++
+		}
+		if pick == "~idle" {
+			return nil, true, false
+		}
+		for _, g := range list {
+			if g.Role == pick {
+				return g, false, false
+			}
+		}
+		return list[0], false, false
 	case "replay":
 		if stepNo >= len(c.replay) {
 			// past the recorded schedule: continue randomly
@@ -545,6 +657,34 @@ func (c *Ctl) choose(o Options) (a *Arrival, idle bool, diverged bool) {
 			c.prio[best.Role] = c.rng.Intn(1000) - stepNo*1000 // below everything so far
 		}
 		return best, false, false
+	case "hold":
+		// random, except that a goroutine which is about to park on a condition variable (a ".wait" gate: it has
+		// evaluated its predicate and still holds the lock) is, with probability 1/2, held back until nothing else can
+		// run: this is the window in which a wake-up can be lost
+		var cand []*Arrival
+		for _, g := range list {
+			if !c.decided[g] {
+				c.decided[g] = true
+				if strings.HasSuffix(g.Pt, ".wait") && c.rng.Intn(2) == 0 {
+					c.held[g] = true
+				}
+			}
+			if !c.held[g] {
+				cand = append(cand, g)
+			}
+		}
+		if len(cand) == 0 {
+			if len(c.timed) > 0 && c.rng.Intn(2) == 0 {
+				return nil, true, false
+			}
+			g := list[c.rng.Intn(len(list))]
+			delete(c.held, g)
+			return g, false, false
+		}
+		if len(c.timed) > 0 && c.rng.Intn(1000) < o.IdleProb {
+			return nil, true, false
+		}
+		return cand[c.rng.Intn(len(cand))], false, false
 	default: // random
 		if len(c.timed) > 0 && c.rng.Intn(1000) < o.IdleProb {
 			return nil, true, false
